@@ -23,6 +23,7 @@ func init() {
 			"Oracle: decode succeeds, same file type, same per-member message counts and order, field-for-field equality with the property's relaxations (arrays up to trailing invalid padding, local timestamps by wall-clock reading, component destinations per the C18 reference expansion, unset = invalid). distinct = distinct encoded streams",
 		Assumptions: []string{"accumulated destinations (distance, total_cycles, accumulated_power) are excluded when their source is set: they are C18's listed findings"},
 		Run:         runC06,
+		Sub:         func(args []string) { tzSub(args) },
 		Replay: func(raw json.RawMessage) (string, error) {
 			var r c05Replay
 			json.Unmarshal(raw, &r)
@@ -121,7 +122,14 @@ func c06Check(g genSpec) ([]byte, string, string) {
 	if err != nil {
 		return nil, "", "skip"
 	}
+	// "the values that were put in": a second, identical File that Encode never sees is the reference, so that an
+	// Encode which writes into the File it is given cannot make the two sides agree
 	fidPut := reflect.ValueOf(f.FileId)
+	gref := g
+	gref.AfterFailed = 0
+	if f2, msgs2, err2 := gref.build(); err2 == nil && len(msgs2) == len(msgs) {
+		fidPut, msgs = reflect.ValueOf(f2.FileId), msgs2
+	}
 	out, eerr, pn := safeEncode(f, g.Big)
 	if pn != "" || eerr != nil {
 		return out, fmt.Sprintf("Encode fails on an in-domain File: %v %s", eerr, pn), "encode"
@@ -186,6 +194,8 @@ func c06Check(g genSpec) ([]byte, string, string) {
 }
 
 func runC06(w *vx.W) {
+	tzFamily(w, "C06")
+	procsFamily(w, "C06", "encode")
 	thorough := !w.Quick()
 	var k int64
 	handle := func(g genSpec, fam string) {
@@ -197,6 +207,12 @@ func runC06(w *vx.W) {
 			// the File's own output fields hold stale values, as after a Decode or an earlier Encode of another size
 			g.Stale = true
 			g.Desc += ", stale Header.CRC/DataSize/CRC"
+		}
+		if k%7 == 0 {
+			// two Encode calls that fail right before: nothing of them may reach the next output
+			g.AfterFailed = 1 + int(k/7)%3
+			g.Desc += ", after two failed Encode calls"
+			w.Fam("after-a-failed-encode", 1)
 		}
 		out, msg, class := c06Check(g)
 		if class == "skip" {
